@@ -129,12 +129,21 @@ theorem closure (ts : List Task) (sel : List Tok) :
     (∀ S : List Tok, (∀ n ∈ sel, n ∈ S) → Closed ts S → ∀ m, Reach ts sel m → m ∈ S) :=
   ⟨closure_sound ts sel, closure_has_sel ts sel, closure_complete ts sel, reach_least ts sel⟩
 
-/-! ## `order` (monitored, not proved) -/
+/-! ## `order` -/
+
+/-- **order**, on a small abstraction of the serial dispatcher: if a start order works the selected tasks off one after
+    the other (`chunkedB`: for every `j`, the part of the closure of the first `j+1` selected tasks that is started at all
+    is started before anything outside it — what `_dispatcher_generator` does, taking the next selected task only when
+    nothing is ready or waiting), then the order clause of C12 holds: a selected task given later starts earlier only if
+    it is in the closure of a task selected before.  `chunkedB` is validated on every observed serial run (K). -/
+theorem order (ts : List Task) (sel started : List Tok) (h : chunkedB ts sel started = true) :
+    orderPairsBad ts sel started = [] := order_of_chunked ts sel started h
 
 /-- order clause of C12 for a start-order function of the serial runner (`serialStart ts sel` = the order in which
     the serial runner starts tasks): a selected task given later starts earlier only if it is in the closure of a task
-    selected before.  NOT proved here — it needs the dispatcher model M1; `Sel.monitor` evaluates exactly this clause
-    (`orderPairsBad`) on every observed run. -/
+    selected before.  NOT proved for the dispatcher itself — that needs the run model M1 (C01/C02); proved above for
+    every start order satisfying the chunk abstraction; `Sel.monitor` evaluates exactly this clause (`orderPairsBad`)
+    on every observed run. -/
 def order_full (serialStart : List Task → List Tok → List Tok) : Prop :=
   ∀ ts sel, orderPairsBad ts sel (serialStart ts sel) = []
 
@@ -170,6 +179,11 @@ example : (prepare exTasks).map (·.taskDep) = [[], [['a'], ['a', 'b']], [['a']]
     closureOf (prepare exTasks) [['g']] = [['g'], ['g', ':', 'x'], ['b'], ['a'], ['a', 'b']] ∧
     closedB (prepare exTasks) (closureOf (prepare exTasks) [['g']]) = true ∧
     closureOf (applySingle (prepare exTasks) [['g']]) [['g']] = [['g'], ['g', ':', 'x']] := by decide
+
+/-- a chunked start order in which a later selected task (`a`) legitimately starts before an earlier one (`b`) -/
+example : chunkedB (prepare exTasks) [['b'], ['a'], ['g']] [['a'], ['a', 'b'], ['b'], ['g', ':', 'x'], ['g']] = true ∧
+    chunkedB (prepare exTasks) [['g', ':', 'x'], ['a']] [['a'], ['a', 'b'], ['b'], ['g', ':', 'x']] = true ∧
+    chunkedB (prepare exTasks) [['a'], ['g']] [['g'], ['a']] = false := by decide
 end examples
 
 end DoitModel.C12
